@@ -440,7 +440,9 @@ fn e_did_url_from_json(s: &str) -> Out {
     }
   }
 }
-static BASE_URLS: Lazy<Vec<DIDUrl>> = Lazy::new(|| ["did:example:123", "did:example:123/p/a?q=1&r=2#f", "did:example:1%41#f"].iter().filter_map(|s| DIDUrl::parse(s).ok()).collect());
+// (fixtures are built under `guard`: a fixture that makes the subject panic must not poison the Lazy)
+static BASE_URLS: Lazy<Vec<DIDUrl>> =
+  Lazy::new(|| ["did:example:123", "did:example:123/p/a?q=1&r=2#f", "did:example:1%41#f"].iter().filter_map(|s| vx::guard(|| DIDUrl::parse(s)).ok().and_then(|r| r.ok())).collect());
 fn e_did_url_join(s: &str) -> Out {
   let mut acc = false;
   for b in BASE_URLS.iter() {
